@@ -9,7 +9,8 @@ import sys
 V = os.path.dirname(os.path.dirname(os.path.abspath(__file__)))
 logs = sys.argv[1:] or [p for p in sorted(glob.glob(os.path.join(V, ".cache/tmp/seeded*.log"))) if "extra" not in p] + \
     [os.path.join(V, ".cache/tmp/seedq.log"), os.path.join(V, ".cache/tmp/tryq.log"),
-     os.path.join(V, ".cache/tmp/tryq7.log"), os.path.join(V, ".cache/tmp/seeded_extra.log")]          # re-runs after a check was strengthened come last
+     os.path.join(V, ".cache/tmp/tryq7.log"), os.path.join(V, ".cache/tmp/seeded_extra.log"),
+     os.path.join(V, ".cache/tmp/benign_rerun.log")]          # re-runs after a check was strengthened come last
 res = {}          # seeded id -> {check id: (exit, nviol)}
 for lg in logs:
     if not os.path.exists(lg):
